@@ -447,7 +447,13 @@ impl Space for LimitSpace {
         let resource_msg = limits::AnalysisLimit { metric: "", observed: 0, limit: 0 }.message();
         let unused = SemanticError::UnusedVariable.as_str();
         let unreachable = SemanticError::UnreachableCode.as_str();
-        let sizes: Vec<usize> = if fam.heavy() && !self.thorough { vec![flip - 1, flip] } else { vec![flip - 1, flip, flip + 1] };
+        let sizes: Vec<usize> = if fam == Family::ScopesWithStatements && !self.thorough {
+            vec![flip] // quick: this family is there for the shipped binary (below); the library side of the below-flip run is the most expensive single step of the check
+        } else if fam.heavy() && !self.thorough {
+            vec![flip - 1, flip]
+        } else {
+            vec![flip - 1, flip, flip + 1]
+        };
         let mut max_arena = 0usize;
         for &n in &sizes {
             let (src, want_out, _) = fam.build(n);
